@@ -36,7 +36,7 @@ PROPS["C05"] = dict(
     driver="c05", builds=["rel", "dbg"], level="model_checking",
     rule="E-hist: breadth-first search over operation histories on the real RawVector / IntVector from several initial states (new, with_capacity, with_len at word boundaries -1/0/+1, "
          "default, From<Vec<T>>/FromIterator<T> for the five item types; with_len fill values wider than the item width, incl. values whose only set bit is just above it). Actions take their parameters relative to the current length (push_bit, push_int at widths 1/7/63/64/exact-fill/fill+1, "
-         "pop_bit, pop_int incl. wider than the content, set_bit, set_int incl. word-straddling, resize up/down across word boundaries, clear, reserve; push/pop/set/resize/clear/reserve/pack/extend "
+         "pop_bit, pop_int incl. wider than the content, set_bit, set_int incl. word-straddling, resize up/down across word boundaries, clear, reserve, complement; push/pop/set/resize/clear/reserve/pack/extend "
          "with values wider than the item width). After every transition: return value, len/width, every bit/item, iterators, and the canonical-state oracle (== a freshly built vector, identical bytes, same count of set bits). "
          "States are deduplicated on the real object's full representation (len, width, words); a state is non-trivial/distinct when its representation was not seen before in the same BFS.",
     bounds={"quick": "depth 4, reduced value alphabet, 12 raw + 79 int initial states (10 widths)", "thorough": "depth 4 full alphabet + depth 5 reduced alphabet (+ raw depth 5 with the all-ones value, int depth 6 at widths 1/7/8/33/63/64), 12 raw + 459 int initial states (all 64 widths)"},
@@ -88,7 +88,7 @@ MANIFEST_TEXT["C03"] = dict(engine="E-input", design_ref="DESIGN.md §4 C03",
 PROPS["C04"] = dict(
     driver="c04", builds=["rel", "dbg"], level="exploration",
     rule="E-input: (a) every vector of length 0..=L over the full alphabet 0..2^w for small (w, L); (b) every vector of length <= 4 (<= 2 for the widest) over the sparse alphabet {0, 1, 2^(k-1)-1, 2^(k-1), 2^k-1} for k up to 16, and the same five-letter alphabet at widths 17..26 with vectors of <= 3 (<= 1 at the widest) values; "
-         "each built from Vec<u64> and from every narrower item type that can hold the values (u8/u16/u32/usize), which must give equal matrices and cores with identical bytes. Queries: len, width, get, iter, into_iter, "
+         "each built from Vec<u64>, from every narrower item type that can hold the values (u8/u16/u32/usize) and by serialize + load, which must all answer identically. Queries: len, width, get, iter, into_iter, "
          "inverse_select at every index <= len+1 and A(len); for every value of the alphabet (or the present values and their neighbours) plus max+1, 2^w, 2^w+1, 2^63, u64::MAX: contains, value_iter, rank / predecessor / successor at every "
          "index, select / select_iter at every rank <= count+1 and A(.); core: map_down, map_down_with, map_down_with_two_positions, map_up_with against the stable sort by reversed bit representation. "
          "Non-trivial = at least two distinct values; distinct by hashed vector.",
@@ -184,7 +184,7 @@ PROPS["C20"] = dict(
          "site - fetch_add and the name formatting - is the shared line users run). Configurations (T,K): (2,1) (2,2) (2,3) (3,1) (3,2), thorough adds (3,3) (4,1) (4,2); shared and per-thread name parts; name parts incl. dotted, empty, "
          "spaced and 250 / 300-byte ones. Oracle per execution: all returned paths pairwise distinct and each file name contains the caller's name part. distinct_nontrivial = distinct assignments of counter values to calls observed. "
          "One loom configuration runs with files already present under the names the first counter values produce (the file system as an environment answer). "
-         "Beside it, on the normal build: deterministic sequential checks for 13 name parts (incl. lengths 100..300 bytes); a deterministic history (threads that run one after the other, pre-existing files under the next names, 140 000 + 70 000 calls from single threads, i.e. beyond 2^16 and 2^17); "
+         "Beside it, on the normal build: deterministic sequential checks for 13 name parts (incl. lengths 100..300 bytes) and across 12 name parts that extend each other by digits and separators (no path twice over 1 800 calls); a deterministic history (threads that run one after the other, pre-existing files under the next names, 140 000 + 70 000 calls from single threads, i.e. beyond 2^16 and 2^17); "
          "and a free-running run (8 OS threads x 20 000 calls) that is SAMPLING and decides nothing, but a duplicate it observes is a real counterexample.",
     bounds={"quick": "T x K up to 3 x 2 (7 847 executions) and 2 x 3", "thorough": "adds 3 x 3 (162 390 executions), 4 x 1 (56 805) and 4 x 2 (8 478 855 executions)"},
     assumptions=["memory orderings are loom's model of C11; more than 4 threads x 2 calls / 3 threads x 3 calls is outside the tiers",
@@ -198,11 +198,11 @@ MANIFEST_TEXT["C20"] = dict(engine="E-sched", design_ref="DESIGN.md §4 C20",
 PROPS["C18"] = dict(
     driver="c18", builds=["rel", "dbg"], level="model_checking",
     rule="E-hist: every sequence of Map(file, ReadOnly|Mutable) / Drop(handle) / Write(handle, first|mid|last element, value) / Read(handle) up to depth d with at most 3 live maps over files of 0, 8, 4088, 4096, 4104, 8192, 65536 and 1 MiB+8 bytes, "
-         "a 12-byte file and a missing file; each history is executed from scratch on the real MemoryMap. Oracle after every action from /proc/self/maps: a successful map is 8-aligned, its whole page-rounded range is mapped to that file, readable "
+         "files of 4, 12 and 4100 bytes (not multiples of 8) and a missing file; each history is executed from scratch on the real MemoryMap. Oracle after every action from /proc/self/maps: a successful map is 8-aligned, its whole page-rounded range is mapped to that file, readable "
          "(writable if mutable), as_ref() equals the file content and len() = size/8; missing / non-multiple-of-8 files give Err and leave nothing mapped; an empty file gives Err or a valid empty map; after Drop no page of the dropped range is still mapped to the file and other live maps are intact; "
          "every map sits between two PROT_NONE guard pages placed by the harness (one is placed first so that the library's mapping lands directly below it) and both guards must survive the drop, so an unmap that is one page too long or too short is seen deterministically; with no live "
          "handle no test file is mapped; the process never holds more open descriptors to a test file than it has live maps of it (so a dropped map keeps nothing of the file open); a write is visible through every live map of the file and in the file after the map is dropped. A state is a history; all histories are distinct by construction.",
-    bounds={"quick": "depth 1..3, 10 files: 12 808 histories", "thorough": "depth 1..4 over 10 files + depth 5 over 7 files: 1 509 086 histories"},
+    bounds={"quick": "depth 1..3, 12 files: 19 604 histories", "thorough": "depth 1..4 over 10 files + depth 5 over 7 files: 1 509 086 histories"},
     require_counters={},
     timeout={"quick": 900, "thorough": 4 * 3600},
     assumptions=[HOOK_ASSUMPTION, "the address space is observed through /proc/self/maps (Linux)", "the only OS refusal provoked is the zero-length mapping"],
@@ -262,7 +262,7 @@ PROPS["C11"] = dict(
     rule="E-input: every bit sequence of length <= N plus representatives (all-zero and all-one vectors at word boundaries, multi-word, multi-block and long-superblock vectors) is built as each of BitVector / SparseVector / RLVector and sent through "
          "EVERY conversion chain of 1..3 conversions: 42 chains by From (consecutive types differ) and 117 chains by copy_bit_vec (any type to any type incl. itself). The result must have the reference length and set positions, be == the structure "
          "the target type's own builder produces from the same bits, and serialize to identical bytes. Builder decompositions: every run list of <= 3 runs of length <= R (gaps 0/1/2) x EVERY composition of each run into adjacent try_set pieces "
-         "(down to bit at a time) x {no set_len, set_len(current length) before every run, set_len(next start) before every run, set_len(current length) before every PIECE} x tail {0, 2}: the RLVector must be the canonical one. "
+         "(down to bit at a time) x {no set_len, set_len(current length) before every run, set_len(next start) before every run, set_len(current length) before every PIECE, two refused try_set calls (an overflowing run behind a gap, a run before the current length) before every piece} x tail {0, 2}: the RLVector must be the canonical one. "
          "Huge universes: SparseVector <-> RLVector chains (From and copy_bit_vec) over lengths up to usize::MAX with runs at 2^60-scale positions and runs ending exactly at usize::MAX. Non-trivial = has set and unset bits / any decomposition.",
     bounds={"quick": "N=10, R=4", "thorough": "N=14, R=6"},
     assumptions=[HOOK_ASSUMPTION, MODEL_ASSUMPTION, "BitVector construction routes from a raw vector / bool iterator are compared in C01"],
@@ -308,8 +308,8 @@ MANIFEST_TEXT["C19"] = dict(engine="E-hist", design_ref="DESIGN.md §4 C19",
 PROPS["C07"] = dict(
     driver="c07", builds=["rel", "dbg"], level="exploration",
     rule="E-input with an independent codec written from SERIALIZATION.md alone (harness/vcore/src/spec.rs, no call into the library). Direction 1: every value of the extended C06 catalogue, every RawVector / BitVector (rotating support subsets) / "
-         "SparseVector / RLVector of <= N bits, sparse vectors at every low width 1..40 with universes that are and are not multiples of 2^w, run-length vectors with 1/8/9/many blocks and 2^60-scale magnitudes, and every wavelet matrix of the scopes "
-         "(plus lengths at and around powers of two) is serialized by the library and decoded by the codec: same logical content, reader ends exactly at the end, and every 'must' holds (little-endian whole elements, zero padding, zero unused bits, "
+         "SparseVector / RLVector of <= N bits, sparse vectors at every low width 1..40 with universes that are and are not multiples of 2^w, run-length vectors with 1/8/9/many blocks and 2^60-scale magnitudes, every wavelet matrix of the scopes "
+         "(plus lengths at and around powers of two), and the files left by the buffered writers (IntVectorWriter at six widths x 0..200 items x four buffer sizes, RawVectorWriter for 0..1000 bits; closed or dropped; incl. writers that received nothing) are written by the library and decoded by the codec: same logical content, reader ends exactly at the end, and every 'must' holds (little-endian whole elements, zero padding, zero unused bits, "
          "stored ones = actual, exactly one bucket per universe slice, w >= 1, 4-bit units with whole runs per 64-unit block, zero padding only in closed blocks and none in the final block, maximal runs, samples per block at minimal width, data width 4, "
          "wavelet-matrix width = bit_len(max), first[v] = first position or len, minimal width of first). Direction 2: files encoded by the codec with every admissible writer choice - all support structures absent, EVERY low width 1..bit_len(n)+1 for "
          "sparse vectors, every sample width from minimal to 64 for run-length vectors - and every subset of support structures in embedded bitvectors - must load and answer the full query sets (and equal the built value where the document determines the content). Greedy block packing is counted, not required. Distinct by hashed case.",
